@@ -308,6 +308,9 @@ def assigned_roots(fn, e):
     k = n.get("k")
 
     def root(x):
+        # field-sensitive by name: a write to a.b.c changes facts that mention `c`
+        # (and nothing about a.b.d); a write through *p / p[i] / a plain variable
+        # changes facts that mention that variable.
         while x is not None:
             kk = x.get("k")
             if kk == "ref":
@@ -315,7 +318,7 @@ def assigned_roots(fn, e):
                 return
             if kk == "member":
                 out.add(x.get("n"))
-                x = x.child("b")
+                return
             elif kk in ("index", "cast", "un"):
                 x = x.child("b") if kk == "index" else x.child("e")
             elif kk == "call" and "obj" in x:
@@ -409,10 +412,19 @@ class BranchFacts(object):
     reaching pos since the last write to anything the atom mentions.
     """
 
-    def __init__(self, fn, extra_kill=None, kill="calls"):
+    def __init__(self, fn, extra_kill=None, kill="calls", kill_calls_of=()):
         self.fn = fn
         self.extra_kill = extra_kill
+        self.event_atoms = set()
         kill_fn = written_roots if kill == "calls" else assigned_roots
+        if kill_calls_of:
+            # assignments kill; additionally non-const calls into the named classes kill what they are given
+            def kill_fn(fn_, e, _pref=tuple(kill_calls_of)):
+                w = assigned_roots(fn_, e)
+                n = fn_.nodes[e] if isinstance(e, int) else None
+                if n is not None and n.get("k") == "call" and not n.get("cm") and any(p_ in (n.get("fn") or "") for p_ in _pref):
+                    w |= written_roots(fn_, e)
+                return w
 
         def transfer(st, pos, e):
             if not st:
@@ -422,7 +434,7 @@ class BranchFacts(object):
                 w |= self.extra_kill(fn, e)
             if not w:
                 return st
-            return frozenset(f for f in st if not fact_mentions(f[0], w))
+            return frozenset(f for f in st if f[0] in self.event_atoms or not fact_mentions(f[0], w))
 
         def edge(st, blk, si, s):
             t = blk.term
@@ -439,6 +451,7 @@ class BranchFacts(object):
                     return st
                 pol = (si == 0)
                 ec = blk.effective_cond()
+                self._note_event(ec)
                 return st | frozenset(cond_atoms(c, pol)) | frozenset(cond_atoms(ec, pol))
             if cls == "SwitchStmt":
                 cases = t.get("cases", [])
@@ -449,6 +462,18 @@ class BranchFacts(object):
             return st
 
         self.in_state, self._at = forward(fn, frozenset(), transfer, edge)
+
+    def _note_event(self, c):
+        """a condition that is the result of a non-const call (delegate query, engine
+        operation) is an *event* on the path, not a state predicate: later writes do
+        not undo the fact that the call returned that value."""
+        n = strip_noise(c)
+        while n is not None and (n.get("k") == "un" and n.get("op") == "!" or
+                                 n.get("k") == "cast" and n.get("ck") in ("IntegralToBoolean", "PointerToBoolean")):
+            n = strip_noise(n.child("e"))
+        if n is not None and n.get("k") == "call" and n.get("ck") in ("member", "free") and not n.get("cm") \
+                and n.get("ck") != "operator":
+            self.event_atoms.add(canon(n))
 
     def at(self, pos):
         return self._at(pos)
